@@ -81,9 +81,16 @@ type c18case struct {
 	Last  int      `json:"last"`
 	Resp  []string `json:"resp"` // per requested height from local+1..last: "-" not found, or "chain.height"
 	Kind  string   `json:"kind"`
+	// the remote's last proof is at or below the local suffrage height but sits on a newer block
+	StaleLastNewerBlock bool `json:"stale_last_newer_block"`
 }
 
 func (c *Ctx) c18gen(big bool) c18case {
+	if !big && c.Chance(1, 12) { // stale / forked last proof: suffrage height not above the local one
+		local := 1 + c.Intn(5)
+		last := c.Intn(local + 1)
+		return c18case{Local: local, Last: last, Kind: "stale-last", StaleLastNewerBlock: c.Bool()}
+	}
 	local := c.Intn(6) - 1
 	n := 1 + c.Intn(10)
 	if big {
@@ -127,7 +134,7 @@ func (c *Ctx) c18gen(big bool) c18case {
 }
 
 func (cs c18case) line() string {
-	return fmt.Sprintf("b %d %d %s", cs.Local, cs.Last, strings.Join(cs.Resp, " "))
+	return strings.TrimSpace(fmt.Sprintf("b %d %d %s %s", cs.Local, cs.Last, b01(cs.StaleLastNewerBlock), strings.Join(cs.Resp, " ")))
 }
 
 // run one case against the real builder (may crash the process: a panic inside a worker goroutine)
@@ -138,6 +145,10 @@ func c18run(cs c18case) string {
 		localst = w.state(0, cs.Local)
 	}
 	lastp := w.proof(0, cs.Last)
+	if cs.StaleLastNewerBlock { // same suffrage height / chain identity, but a state on a much newer block
+		sv := isaac.NewSuffrageNodesStateValue(base.Height(cs.Last), []base.SuffrageNodeStateValue{isaac.NewSuffrageNodeStateValue(w.node, base.Height(cs.Last))})
+		lastp.st = base.NewBaseState(base.Height(1000), isaac.SuffrageStateKey, sv, valuehash.RandomSHA256(), []util.Hash{valuehash.RandomSHA256()})
+	}
 	b := isaac.NewSuffrageStateBuilder(hNetworkID,
 		func(context.Context) (base.Height, base.SuffrageProof, bool, error) {
 			return base.Height(cs.Last * 2), lastp, true, nil
@@ -247,6 +258,10 @@ func runC18(c *Ctx) error {
 		switch {
 		case res == "panic":
 			c.Violation("C18:panic", fmt.Sprintf("Build crashed the process (%s): %s", cs.Kind, cs.line()[:min(len(cs.line()), 200)]), in)
+		case strings.HasPrefix(res, "ok") && cs.Kind == "stale-last":
+			if strings.TrimSpace(strings.TrimPrefix(res, "ok")) != "" {
+				c.Violation("C18:stale-last-proof-accepted", fmt.Sprintf("local suffrage height %d, remote last %d (newer block: %v): Build returned %s without error", cs.Local, cs.Last, cs.StaleLastNewerBlock, res), in)
+			}
 		case strings.HasPrefix(res, "ok"):
 			// gap-free chain local+1 .. last, then the last proof again
 			want := []string{}
@@ -269,7 +284,7 @@ func runC18(c *Ctx) error {
 				c.Violation(cls, fmt.Sprintf("local %d, last %d, %s responses: Build returned %s", cs.Local, cs.Last, cs.Kind, r), in)
 			}
 		default:
-			if cs.Kind == "valid" {
+			if cs.Kind == "valid" || (cs.Kind == "stale-last" && !cs.StaleLastNewerBlock) {
 				c.Violation("C18:valid-chain-rejected", cs.line()[:min(len(cs.line()), 200)], in)
 			}
 		}
